@@ -6,7 +6,9 @@ package rest
 // writers, stops, starts, severed connections, restarts, storage faults).  The monitor watches the storage seam of
 // both nodes: whenever a replication checkpoint document has been stored (the active node's local checkpoint, or
 // the passive node's copy written through the setCheckpoint message) it reads, at that very moment and without
-// passing through the simulator, the persisted position S and both buckets, and demands
+// passing through the simulator, both copies of that checkpoint and both buckets.  The replicator restarts from the
+// lower of its two copies, so S = min(local copy, peer's copy) is the position a restart would use, and the monitor
+// demands
 //
 //   ahead-of-processed: every document of the sending side that is stored with a sequence <= S is known to the
 //       receiving side (its current revision is in the receiver's revision tree, or its current version is covered
@@ -171,9 +173,31 @@ func (m *c17Mon) observe(side int, n *restNode, w *restWorld, oi simstore.OpInfo
 		return
 	}
 	m.floor[fkey] = c17Floor{seq: S, dialled: w.net.Dialled}
+	// The replicator keeps two copies of its checkpoint (its own and the peer's) and restarts from the lower of the
+	// two; the position a restart would use is what is judged.  (A copy alone may run ahead: a revision message cut
+	// off by a lost connection counts as processed for the local copy written while disconnecting; the peer's copy
+	// cannot be written then, and the next connection rolls the local copy back to it.)
+	otherDoc, _, oerr := m.raws[1-side].raw.DefaultDataStore(ctx).GetRaw(ctx, oi.Key)
+	var O uint64
+	if oerr == nil && len(otherDoc) > 0 {
+		var ocp struct {
+			LastSeq string `json:"last_sequence"`
+		}
+		if json.Unmarshal(otherDoc, &ocp) == nil && ocp.LastSeq != "" {
+			if sid, perr := db.ParsePlainSequenceID(ocp.LastSeq); perr == nil {
+				O = sid.SafeSequence()
+			}
+		}
+		m.env.Sim.Probe("c17s.both-copies-present")
+	}
+	copyS := S
+	if O < S {
+		S = O
+	}
 	if S == 0 {
 		return
 	}
+	where = fmt.Sprintf("%s (this copy holds %d, the other copy %d: a restart uses %d)", where, copyS, O, S)
 	src := 0
 	if strings.Contains(oi.Key, "sgr2cp:pull:") {
 		src = 1
